@@ -13,16 +13,38 @@ from harness import parser_common as pc
 ID = "C02"
 DESIGN_REF = "6/C02"
 LEAN_MODULES = ["Clikit.Props.C02"]
-REQUIRED_THEOREMS = []
+REQUIRED_THEOREMS = ["Clikit.Props.C02.parse_terminates", "Clikit.Props.C02.errors_classified",
+                     "Clikit.Props.C02.lenient_never_parse_error", "Clikit.Props.C02.strict_ok_lenient_same",
+                     "Clikit.Props.C02.no_foreign_exception", "Clikit.Props.C02.lenient_only_value_error",
+                     "Clikit.Props.C02.d24_guard_needed"]
 TECHNIQUE = ("Lean 4 theorems on the parser model (no foreign exception, lenient never raises a parse error, "
              "strict-ok implies lenient-identical, termination of the token loop) + exhaustive/differential correspondence")
-LEVEL_TEXT = ""
-LEVEL_NOTE = ""
+LEVEL_TEXT = ("Proved in Lean for ALL formats, token lists and both modes, on a model of DefaultArgsParser.parse/Args that "
+              "carries an explicit foreign error at every partial Python operation and a fuel-indexed token loop: termination "
+              "(fuel = tokens+1 is never exhausted), lenient mode never raises either parse error, strict success implies the "
+              "identical lenient result, and - for well-formed formats, via invariants of the parser's scratch dictionaries "
+              "through the token loop and the command-name re-alignment - no exception other than cannot-parse, "
+              "no-such-option and ValueError escapes. The model is tied to the code by differential runs (exhaustive short "
+              "token sequences over an adversarial alphabet x catalogue formats, random longer ones, single-fault mutants "
+              "with the required error class).")
+LEVEL_NOTE = ("Trusted: Lean kernel + standard axioms; the hand-written parser model (modelled, not verified; compared with "
+              "the real parser on every generated case in strict and lenient mode); CPython int()/float() as conversion "
+              "tables. The 'each fault class yields exactly this error' claims are checked by the correspondence/oracle on "
+              "generated mutants, not proved. no_foreign_exception assumes FmtWF (unique argument names, C07 option normal "
+              "form, defaults of optional-value options convertible inside the model).")
 RULE = ("(a) all token sequences up to length L (quick 2, thorough 3) over a 38-token adversarial alphabet x 7 catalogue "
         "formats; (b) random sequences of length 3-6; (c) single-fault mutants of well-formed C01 lines. Non-trivial = the "
         "sequence contains an option-like token or more positionals than the format takes; distinct = (format, tokens)")
-TRUSTED_BASE = []
-ASSUMPTIONS = []
+TRUSTED_BASE = [
+    "Lean 4.33 kernel; axioms within propext, Classical.choice, Quot.sound (audited per theorem on every run)",
+    "lean/Clikit/Model/Parser.lean: hand-written model of DefaultArgsParser/Args (modelled, not verified; tied by the correspondence)",
+    "harness/parser_common.py + harness/props/c02.py: format construction through the real builder, generators, canonical encoding",
+    "CPython int()/float(): parameters of the model, supplied as tables by the running interpreter",
+]
+ASSUMPTIONS = [
+    "FmtWF for no_foreign_exception: unique argument names, accepts-value options are required/optional/multi (C07), optional-value defaults convert inside the model",
+    "fault-class -> error-class claims: generated single-fault mutants (oracle), not a theorem",
+]
 BATCH = 4000
 
 ALPHABET = ["", "-", "--", "---", "--=", "-=", "--foo", "--foo=x", "--bar", "--bar=x", "--bar=", "--unknown",
